@@ -330,6 +330,9 @@ pub fn enumerate_with(ctx: &mut Ctx, rec: &Recorded, o: &CrashOpts, r: &mut Rng,
                         }
                         _ => Ok(()),
                     });
+                if res.is_ok() && k > 0 && k < m && k == m / 2 && ctx.evaluations % 5 == 0 {
+                    ctx.sample(|| json!({"kind":"crash-point","history":rec.label,"journal_ops":m,"crash_after_op":k,"torn_bytes_of_next_write":cut,"window":win2,"verdict":"recovered to the before-or-after state, continuation ok"}));
+                }
                 if let Err(fl) = res {
                     bad += 1;
                     let sig = format!("{}:{}", win_class(&win2), fl.sig);
